@@ -72,6 +72,10 @@ CHECKS = {
  'C09': ('exploration', 'runtime monitor: unique-value position oracle (cell (r,c) = token r{r}c{c}, so a returned value identifies its column) over random hostile headers x every column x every spelling x sources {list, pandas, sqlite, CSV, CLI}; WITH-modifier matrix on CSV input and join files',
          'For thousands of random headers every column is looked up in every spelling through every source kind, also as UPDATE target, EXCEPT column and JOIN key; the WITH (header|noheader) x caller flag x {input, join} matrix is enumerated completely; held on the headers observed.',
          'Trusted: qast.lit as the way a user writes a name as a string literal; names with an a.ident / b.ident token are excluded as quantified.', 'DESIGN.md#c09'),
+
+ 'C13': ('exploration', 'runtime monitor: differential oracle between query_table and eight entry points (rbql.query with user-written classes, query_csv, CLI file / stdin-stdout in three output formats, pandas, sqlite library and CLI) with process observers (exit status, stdout, stderr captured separately)',
+         'Generated type-agnostic queries over rectangular string tables run through every front-end and are compared cell by cell (after the stringification CSV sinks apply) and header by header with query_table; failing queries check exit status, Error [type] on stderr and warning routing; held on the cases observed.',
+         'Differential: query_table is the reference (pinned by C01-C05, C07). CLI output is parsed with rv/model/refcsv.py in the announced dialect.', 'DESIGN.md#c13'),
 }
 
 NOT_YET = 'check not registered yet (machinery under construction; see DESIGN.md section 3a build order)'
